@@ -39,7 +39,7 @@ def rng(tag=""):
     return random.Random("%d/%s" % (seed(), tag))
 
 
-def tree_hash():
+def tree_hash(repo_only=False):
     """content hash of everything under /repo/vsg and /repo/docs that can influence a check"""
     h = hashlib.sha256()
     for root in ("vsg", "docs"):
@@ -52,6 +52,8 @@ def tree_hash():
                     h.update(p.encode())
                     with open(p, "rb") as fh:
                         h.update(fh.read())
+    if repo_only:
+        return h.hexdigest()[:24]
     hs = h.copy()
     # the harness and the model are part of the key too
     for base in (os.path.join(VERIF, "harness"), os.path.join(LEAN, "VsgModel"), os.path.join(LEAN, "VsgProofs")):
